@@ -37,13 +37,14 @@ static void body(mvprog::PT& p) {
         if (c == 'c') { G->close_issued = 1; G->ch->close(); G->log += char('a' + me); G->log += 'c'; continue; }
         Op* o = new Op; o->op = c; o->th = me; o->val = -1; G->ops.push_back(o);
         o->t0 = mv_now();
+        pmc_log("  [+%llu] T%d %c begins (blocked s=%d r=%d)", (unsigned long long)(mv_now() - MV_T0), me, c, G->blocked_s, G->blocked_r);
         if (c == 's' || c == 't' || c == 'x') {
             o->val = me * 100 + seq++;
             uint64_t forever = FOREVER + 10000ull * (G->nwaits++ % 50);
             if (c == 's' && G->gen) {
                 // generated program: "forever" is a 1 s stand-in; when it expires nobody could run: judge the quiescent state, then go on
                 G->blocked_s++; o->ok = G->ch->send(o->val, Timeout(forever));
-                if (!o->ok && errno == ETIMEDOUT && mv_now() >= o->t0 + forever) { if (G->judged_jump != mv_time_jumps()) { G->judged_jump = mv_time_jumps(); judge_quiescence("stand-in timeout"); } G->blocked_s--; o->done = true; o->err = ETIMEDOUT; o->t1 = mv_now(); G->log += char('a' + me); G->log += "sb"; continue; }
+                if (!o->ok && errno == ETIMEDOUT && mv_now() >= o->t0 + forever) { pmc_log("  [+%llu] T%d s stand-in expired (blocked s=%d r=%d)", (unsigned long long)(mv_now() - MV_T0), me, G->blocked_s, G->blocked_r); if (G->judged_jump != mv_time_jumps() && mv_time_heur() == 0 && mv_time_devs() == 0) { G->judged_jump = mv_time_jumps(); judge_quiescence("stand-in timeout"); } G->blocked_s--; o->done = true; o->err = ETIMEDOUT; o->t1 = mv_now(); G->log += char('a' + me); G->log += "sb"; continue; }
                 G->blocked_s--;
             } else
             if (c == 's') { G->blocked_s++; o->ok = G->ch->send(o->val); G->blocked_s--; }
@@ -54,7 +55,7 @@ static void body(mvprog::PT& p) {
             uint64_t forever = FOREVER + 10000ull * (G->nwaits++ % 50);
             if (c == 'r' && G->gen) {
                 G->blocked_r++; o->ok = G->ch->recv(v, Timeout(forever));
-                if (!o->ok && errno == ETIMEDOUT && mv_now() >= o->t0 + forever) { if (G->judged_jump != mv_time_jumps()) { G->judged_jump = mv_time_jumps(); judge_quiescence("stand-in timeout"); } G->blocked_r--; o->done = true; o->err = ETIMEDOUT; o->t1 = mv_now(); G->log += char('a' + me); G->log += "rb"; continue; }
+                if (!o->ok && errno == ETIMEDOUT && mv_now() >= o->t0 + forever) { pmc_log("  [+%llu] T%d r stand-in expired (blocked s=%d r=%d)", (unsigned long long)(mv_now() - MV_T0), me, G->blocked_s, G->blocked_r); if (G->judged_jump != mv_time_jumps() && mv_time_heur() == 0 && mv_time_devs() == 0) { G->judged_jump = mv_time_jumps(); judge_quiescence("stand-in timeout"); } G->blocked_r--; o->done = true; o->err = ETIMEDOUT; o->t1 = mv_now(); G->log += char('a' + me); G->log += "rb"; continue; }
                 G->blocked_r--;
             } else
             if (c == 'r') { G->blocked_r++; o->ok = G->ch->recv(v); G->blocked_r--; }
@@ -63,6 +64,7 @@ static void body(mvprog::PT& p) {
             if (o->ok) { o->val = v; G->got[me].push_back(v); }
         }
         o->err = errno; o->t1 = mv_now(); o->done = true;
+        pmc_log("  [+%llu] T%d %c returns %d val=%d", (unsigned long long)(mv_now() - MV_T0), me, c, (int)o->ok, o->val);
         G->log += char('a' + me); G->log += c; G->log += o->ok ? '+' : '-';
         if (!o->ok) {
             bool timed = c == 't' || c == 'u', tr = c == 'x' || c == 'v';
